@@ -2,10 +2,4 @@
 EXTENDS Integers
 NegOne == -1
 DEV_none == {}
-DEV_set_DisconnectKeepsWritten_EchoUsesFirstHeader_IdleRepeatRefreshesIin_OverflowKeepsWrittenCount_UnsolAbortKeepsWritten == {"DisconnectKeepsWritten", "EchoUsesFirstHeader", "IdleRepeatRefreshesIin", "OverflowKeepsWrittenCount", "UnsolAbortKeepsWritten"}
-DEV_set_DisconnectKeepsWritten == {"DisconnectKeepsWritten"}
-DEV_set_EchoUsesFirstHeader == {"EchoUsesFirstHeader"}
-DEV_set_IdleRepeatRefreshesIin == {"IdleRepeatRefreshesIin"}
-DEV_set_OverflowKeepsWrittenCount == {"OverflowKeepsWrittenCount"}
-DEV_set_UnsolAbortKeepsWritten == {"UnsolAbortKeepsWritten"}
 ====
